@@ -163,15 +163,16 @@ class C10(Check):
         D = 5 if tier == 'quick' else 6
         params = {'depth': D, 'adds': [['a', 1], ['a', -1], ['b', 1], ['b', -1]],
                   'requests': [{'a': 1}, {'a': 2}, {'a': 1, 'b': 1}], 'pools': [['a', 2], ['b', 1]],
-                  'kinds': ['noop', 'take', 'again', 'give', 'shared']}
+                  'kinds': ['noop', 'take', 'again', 'give']}
         jobs = split_first('rmwait', f'RMWAIT-C10[D{D}]', params, e2=50, max_states=3000000, max_seconds=3000)
         # the same alphabet started from a non-initial state: pool 'a' over capacity (2 in use, capacity reduced to 1)
         p2 = dict(params)
         p2['prefix'] = [['reserve', 1], ['add', 1], ['advance']]
         jobs += split_first('rmwait', f'RMWAIT-C10over[D{D}]', p2, e2=50, max_states=3000000, max_seconds=3000)
-        # requests with a zero amount of a resource that was never defined / is over-committed
+        # requests with a zero amount of a resource that was never defined / is over-committed; registrations that
+        # share ONE callback object
         p3 = {'depth': D, 'adds': [['a', 1], ['a', -1]], 'requests': [{'a': 1}, {'a': 1, 'zz': 0}, {'a': 0, 'b': 1}],
-              'pools': [['a', 1], ['b', 1]], 'kinds': ['noop', 'take']}
+              'pools': [['a', 1], ['b', 1]], 'kinds': ['noop', 'take', 'shared']}
         jobs += split_first('rmwait', f'RMWAIT-C10zero[D{D}]', p3, e2=50, max_states=3000000, max_seconds=3000)
         return jobs
 
